@@ -255,10 +255,10 @@ def staticCallsT (st : StructTable) (insOf : String → List Param)
 
 def staticCallableT (P : Program) (nm : List String → String) :
     Nat → String → List String → RBMap → RB × List STree
-  | 0, _, _, _ => (⟨.lit .null, badTy⟩, [])
+  | 0, callee, _, _ => (⟨.lit .null, ⟨callee, 0, 0⟩⟩, [])
   | fuel+1, callee, path, ins =>
     match P.callables.lookup callee with
-    | none => (⟨.lit .null, badTy⟩, [])
+    | none => (⟨.lit .null, ⟨callee, 0, 0⟩⟩, [])
     | some (.stage _ _) => (⟨.ref (nm path) ⟨callee, 0, 0⟩ [], ⟨callee, 0, 0⟩⟩, [.node ⟨path, callee, ins, [], []⟩])
     | some (.pipeline _ outs calls ret) =>
       let r := staticCallsT P.table P.insOf (staticCallableT P nm fuel) path ins calls [] []
@@ -465,13 +465,13 @@ def storeOfNodesR (st : StructTable) (nf : Nat) (nm : List String → String) (n
 /-! ### the fragment of the refinement with map calls of run-time size -/
 
 mutual
-/-- `treeOk` + ARRAY-mode map calls of run-time size whose callee's outputs contain neither the
-call's own split nor a merge over it -/
+/-- `treeOk` + map calls of run-time size whose callee's outputs contain neither the call's own split
+nor a merge over it -/
 def treeOkP (above : List String) : STree → Bool
   | .node _ => true
   | .sub c _ _ ok ch => ok && !above.contains c && treeOkPList (above ++ [c]) ch
   | .guard _ ch => treeOkPList above ch
-  | .subR c m _ _ ok ch => ok && !m && !above.contains c && treeOkPList (above ++ [c]) ch
+  | .subR c _ _ _ ok ch => ok && !above.contains c && treeOkPList (above ++ [c]) ch
 def treeOkPList (above : List String) : List STree → Bool
   | [] => true
   | t :: ts => treeOkP above t && treeOkPList above ts
@@ -484,12 +484,12 @@ def idxOkT (st : StructTable) (nf : Nat) (ρ : Store) : ForkAssign → STree →
   | _, .node _ => true
   | f, .sub c _ ixs _ ch => ixs.all fun ix => idxOkTList st nf ρ (fset f c ix) ch
   | f, .guard _ ch => idxOkTList st nf ρ f ch
-  | f, .subR c _ _ cins _ ch =>
+  | f, .subR c m _ cins _ ch =>
     !(ρ.idx c f).isEmpty &&
     (cins.all fun kv =>
       match kv.2.exp with
       | .split c' _ src =>
-        c' != c || decide (indicesOf (evalRT st nf ρ f (liftSplitTy false kv.2.ty) src) = ρ.idx c f)
+        c' != c || decide (indicesOf (evalRT st nf ρ f (liftSplitTy m kv.2.ty) src) = ρ.idx c f)
       | _ => true) &&
     (ρ.idx c f).all fun ix => idxOkTList st nf ρ (fset f c ix) ch
 def idxOkTList (st : StructTable) (nf : Nat) (ρ : Store) : ForkAssign → List STree → Bool
